@@ -65,7 +65,8 @@ func InitGenesis(ctx sdk.Context, k Keeper, state *types.GenesisState) {
 	for i := 0; i < len(state.BatchConfirms); i++ {
 		confirm := state.BatchConfirms[i]
 		for _, oracle := range state.Oracles {
-			if confirm.BridgerAddress == oracle.BridgerAddress {
+			// a confirmation belongs to the oracle whose external key signed it (bridger accounts can be re-used by another oracle)
+			if confirm.ExternalAddress == oracle.ExternalAddress {
 				// 0x22
 				k.SetBatchConfirm(ctx, oracle.GetOracle(), &confirm)
 			}
@@ -74,7 +75,7 @@ func InitGenesis(ctx sdk.Context, k Keeper, state *types.GenesisState) {
 	for i := 0; i < len(state.OracleSetConfirms); i++ {
 		confirm := state.OracleSetConfirms[i]
 		for _, oracle := range state.Oracles {
-			if confirm.BridgerAddress == oracle.BridgerAddress {
+			if confirm.ExternalAddress == oracle.ExternalAddress {
 				// 0x16
 				k.SetOracleSetConfirm(ctx, oracle.GetOracle(), &confirm)
 			}
